@@ -18,3 +18,18 @@ impl Clone for PathAwareValue {
 // stands for indexmap::IndexSet<String> (ParameterizedRule::parameter_names)
 #[verifier::external_body]
 pub struct IndexSetString { _p: u8 }
+
+// stands for the derived Clone impls of the record payload types (their results are only stored in records)
+impl Clone for UnResolved {
+    #[verifier::external_body]
+    fn clone(&self) -> (r: Self) { unimplemented!() }
+}
+impl Clone for QueryResult {
+    #[verifier::external_body]
+    fn clone(&self) -> (r: Self) { unimplemented!() }
+}
+
+// R11: an iterator-adapter expression that only builds the `to` payload of a check record
+// (`qin.rhs.iter().cloned().map(QueryResult::Resolved).collect::<Vec<_>>()`) is replaced by this opaque constructor
+#[verifier::external_body]
+pub fn verif_payload_vec(v: &Vec<Rc<PathAwareValue>>) -> (r: Vec<QueryResult>) { unimplemented!() }
